@@ -4,11 +4,12 @@ import glob, json, os, re
 rows = []
 for d in sorted(glob.glob("/verif/seeded/C*")):
     pid = os.path.basename(d)
+    base = pid.split(".")[0]
     m = json.load(open(d + "/meta.json"))
     how = m.get("detected_by")
     if not how:
-        for root in ("/tmp/seed2", "/tmp/seed"):
-            p = f"{root}/{pid}.check_{pid}.log"
+        for root in (("/tmp/seed3",) if "." in pid else ("/tmp/seed2", "/tmp/seed")):
+            p = f"{root}/{base}.check_{base}.log"
             if os.path.exists(p):
                 t = open(p).read()
                 f = re.search(r"failure \[(.*?)\] \[(.*?)\]", t)
@@ -33,6 +34,6 @@ out = ["# Independently seeded changes and the checks that catch them\n",
 for pid, m in rows:
     det = m.get("detected", {})
     ok = all(det.values()) and det
-    out.append(f"| {pid} | {m.get('needs_to_manifest','')} | {'**caught**' if ok else 'MISSED'} (exit {m.get('check_exit_codes',{}).get(pid)}) | {m.get('detected_by','')} |")
+    out.append(f"| {pid} | {m.get('needs_to_manifest','')} | {'**caught**' if ok else 'MISSED'} (exit {m.get('check_exit_codes',{}).get(base)}) | {m.get('detected_by','')} |")
 open("/verif/SEEDED.md", "w").write("\n".join(out) + "\n")
 print(sum(1 for _, m in rows if all(m.get("detected", {}).values())), "of", len(rows), "caught")
